@@ -8,6 +8,7 @@ import Bp7.Model.Admin
 import Bp7.Model.Time
 import Bp7.Model.Json
 import Bp7.Model.TsGen
+import Bp7.Model.Ffi
 import Bp7.Spec.Rfc9171
 namespace Bp7.Driver
 open Bp7
@@ -62,6 +63,40 @@ def parseSched (s : String) : Option (List (Nat × Nat)) :=
 
 def showPairs (l : List (Nat × Nat)) : String :=
   String.intercalate " " (l.map (fun p => toString p.1 ++ "." ++ toString p.2))
+
+/-- `bundle_new_default(src, dst, lifetime, payload)` with the clock reading `clock` (sequence number 0) -/
+def ffiNewDefault (src dst : Bytes) (life : Nat) (payload : Bytes) (clock : Nat) : Option Bundle :=
+  match parseEid src, parseEid dst with
+  | .ok s, .ok d =>
+    some { primary := { version := DTN_VERSION, flags := F_MUST_NOT_FRAGMENT, crc := .no, dst := d, src := s, rpt := s,
+                        ts := clock, seq := 0, lifetime := life, fragOff := 0, total := 0 },
+           canon := [newPayloadBlock 0 payload] }
+  | _, _ => none
+
+def parseFfiCall (c : String) : Option Ffi.Call :=
+  match c.splitOn ":" with
+  | ["T"] => some .bufferTest
+  | ["D", h] => (bytesOfHex h).map .fromCbor
+  | ["N", s, d, l, p, c] => do
+    let b ← ffiNewDefault (← bytesOfHex s) (← bytesOfHex d) (← l.toNat?) (← bytesOfHex p) (← c.toNat?)
+    some (.newBundle b)
+  | ["E", k] => k.toNat?.map .toCbor
+  | ["M", k] => k.toNat?.map .getMetadata
+  | ["P", k] => k.toNat?.map .payload
+  | ["V", k] => k.toNat?.map .isValid
+  | ["FB", k] => k.toNat?.map .bufferFree
+  | ["FU", k] => k.toNat?.map .bundleFree
+  | ["FM", k] => k.toNat?.map .metadataFree
+  | _ => none
+
+def showFfiOut : Ffi.Out → String
+  | .handle h => "h" ++ toString h
+  | .null => "null"
+  | .buffer h c => "buf" ++ toString h ++ ":" ++ (match c with | some b => hexOfBytes b | none => "null")
+  | .mdata h s d ts sq l => "meta" ++ toString h ++ ":" ++ hexOfBytes s ++ ":" ++ hexOfBytes d ++ ":" ++ toString ts ++ ":" ++ toString sq ++ ":" ++ toString l
+  | .bool b => showBool b
+  | .unit => "-"
+  | .misuse => "misuse"
 
 def answer (line : String) : String :=
   match line.splitOn " " with
@@ -159,6 +194,13 @@ def answer (line : String) : String :=
   | ["ts.run.pinned", sc] =>
     match parseSched sc with
     | some sched => ("ok " ++ showPairs (TsGen.runP sched).out.reverse).trimAsciiEnd.toString
+    | none => "bad-op"
+  | ["ffi", cs] =>
+    match (cs.splitOn ";").mapM parseFfiCall with
+    | some calls =>
+      let (s, outs) := Ffi.run false calls Ffi.init
+      "ok " ++ String.intercalate " " (outs.map showFfiOut) ++ " leak="
+        ++ (if s.objs.isEmpty then toString s.live.length else "?")
     | none => "bad-op"
   | ["time.unix", t] =>
     match t.toNat? with
